@@ -628,6 +628,7 @@ package vnet
 //@ ghost global wrN mathint
 //@ ghost global wrChunk map[mathint]mathint
 //@ func (o connObserver) write(c Chunk) (err error)
+//@   requires [coupled] typeis(c, *chunkUDP) ==> coupled(ptr(c, *chunkUDP))
 //@   modifies wrN, wrChunk
 //@   ensures wrN == old(wrN) + 1 && wrChunk[old(wrN)] == ref(c)
 //@ func (o connObserver) determineSourceIP(locIP net.IP, dstIP net.IP) (r net.IP)
@@ -647,6 +648,7 @@ package vnet
 
 // a host hands a datagram to its router exactly once (loopback destinations go to the covering local socket instead)
 //@ func (v *Net) write(chunk Chunk) (err error)
+//@   requires [coupled] typeis(chunk, *chunkUDP) ==> coupled(ptr(chunk, *chunkUDP))
 //@   requires chunk != nil && ref(chunk) != 0 && v.udpConns != nil && (v.router != nil ==> v.router.queue != nil && v.router.log != nil)
 //@   modifies clock, chStamp, lastPushed, lastFind, upN, upRouter, upChunk, handedN, handedSock
 //@   ensures [router] err == nil && !(chNet[ref(chunk)] == "udp" && isLoopbackStr(chDstIP[ref(chunk)])) ==> upN == old(upN) + 1 && upRouter[old(upN)] == ref(v.router) && upChunk[old(upN)] == ref(chunk) && handedN == old(handedN)
